@@ -6,7 +6,7 @@ sys.path.insert(0, os.path.join(os.path.dirname(os.path.abspath(__file__)), '..'
 import vlib
 from sem import check_common as CC
 
-ELEMENT = {'ifd', 'arith_c', 'mod_c', 'unary_num', 'ceilfloor', 'round', 'power', 'nvl', 'cmp_c', 'between', 'in', 'isnull',
+ELEMENT = {'ifd', 'irr', 'arith_c', 'mod_c', 'unary_num', 'ceilfloor', 'round', 'power', 'nvl', 'cmp_c', 'between', 'in', 'isnull',
            'concat_c', 'str_un', 'length', 'substr', 'replace', 'not', 'bool_c', 'zip_arith', 'zip_cmp', 'zip_concat', 'zip_bool'}
 
 
